@@ -72,9 +72,18 @@ func (pass *RenameObject) processConstantRef(_ *Visitor, _ *ast.Schema, def ast.
 }
 
 func (pass *RenameObject) processDisjunction(visitor *Visitor, schema *ast.Schema, def ast.Type) (ast.Type, error) {
-	// discriminator mappings refer to objects of the schema's package by name
+	// discriminator mappings designate the branches of the disjunction by name:
+	// the package of an entry is the package of the branch it designates.
 	for discriminator, typeName := range def.Disjunction.DiscriminatorMapping {
-		if pass.From.MatchesRef(ast.RefType{ReferredPkg: schema.Package, ReferredType: typeName}) {
+		designated := ast.RefType{ReferredPkg: schema.Package, ReferredType: typeName}
+		for _, branch := range def.Disjunction.Branches {
+			if branch.IsRef() && branch.Ref.ReferredType == typeName {
+				designated = branch.AsRef()
+				break
+			}
+		}
+
+		if pass.From.MatchesRef(designated) {
 			def.Disjunction.DiscriminatorMapping[discriminator] = pass.To
 		}
 	}
